@@ -11,7 +11,7 @@ warnings.filterwarnings("ignore")
 from odata_query import ast, exceptions
 
 FIELDS = {"id": "Integer", "title": "String", "content": "String", "published_at": "DateTime", "rating": "Float",
-          "views": "Integer", "public": "Boolean"}
+          "views": "Integer", "likes": "Integer", "public": "Boolean"}
 _FIX = {}
 
 
@@ -34,13 +34,14 @@ def fixture(bkey):
                 app_label = "vf"
 
         class BlogPost(models.Model):
-            title = models.CharField(max_length=100)
-            content = models.TextField()
-            published_at = models.DateTimeField()
-            rating = models.FloatField()
-            views = models.IntegerField()
-            public = models.BooleanField()
-            author = models.ForeignKey(Author, on_delete=models.CASCADE, related_name="blogposts")
+            title = models.CharField(max_length=100, null=True)
+            content = models.CharField(max_length=200, null=True)
+            published_at = models.DateTimeField(null=True)
+            rating = models.FloatField(null=True)
+            views = models.IntegerField(null=True)
+            likes = models.IntegerField(null=True)
+            public = models.BooleanField(null=True)
+            author = models.ForeignKey(Author, on_delete=models.CASCADE, related_name="blogposts", null=True)
 
             class Meta:
                 app_label = "vf"
@@ -65,6 +66,7 @@ def fixture(bkey):
             published_at = sa.Column(sa.DateTime)
             rating = sa.Column(sa.Float)
             views = sa.Column(sa.Integer)
+            likes = sa.Column(sa.Integer)
             public = sa.Column(sa.Boolean)
             author_id = sa.Column(sa.Integer, sa.ForeignKey("author.id"))
             author = relationship("Author", back_populates="blogposts")
@@ -154,4 +156,44 @@ def variants(tree):
     except Exception:
         pass
     return out
+
+
+ROWCOLS = ["title", "content", "rating", "views", "likes", "public"]
+
+
+def selected_by_orm(bkey, tree, table):
+    """ids of the rows of `table` (list of dicts over ROWCOLS) that the backend's translation of `tree` selects when the
+    statement is executed on an in-memory SQLite; None when the backend refuses the filter"""
+    kind, r, v = translate(bkey, tree)
+    if kind != "ok" or r is None:
+        return None
+    root = fixture(bkey)
+    if bkey == "django":
+        from django.db import connection
+        if not _FIX.get("_django_tables"):
+            with connection.schema_editor() as ed:
+                for m in _FIX["_keep_django"]:
+                    ed.create_model(m)
+            _FIX["_django_tables"] = True
+        root.objects.all().delete()
+        root.objects.bulk_create([root(id=i + 1, **{k: row[k] for k in ROWCOLS}) for i, row in enumerate(table)])
+        qs = root.objects.all()
+        if v.queryset_annotations:
+            qs = qs.annotate(**v.queryset_annotations)
+        return {i - 1 for i in qs.filter(r).values_list("id", flat=True)}
+    import sqlalchemy as sa
+    if "_sa_engine" not in _FIX:
+        eng = sa.create_engine("sqlite://")
+        _FIX["_keep_sa"][0].metadata.create_all(eng)
+        _FIX["_sa_engine"] = eng
+    eng = _FIX["_sa_engine"]
+    tbl = _FIX["sa_core"]
+    with eng.begin() as con:
+        con.execute(tbl.delete())
+        con.execute(tbl.insert(), [dict(id=i + 1, **{k: row[k] for k in ROWCOLS}) for i, row in enumerate(table)])
+        q = sa.select(tbl.c.id if bkey == "sa_core" else root.id).filter(r)
+        if bkey == "sa_orm":
+            for j in v.join_relationships:
+                q = q.join(j)
+        return {x[0] - 1 for x in con.execute(q)}
 '''
